@@ -135,6 +135,7 @@ pub fn run(outdir: &Path, tier: &str, seed: u64, shards: usize, _replay: Option<
                 TypeDef::Object { name: "Query".into(), implements: vec![], fields: vec![FieldDef::new("dog", GType::named("Dog")), FieldDef::new("n", GType::named("Int"))] },
             ],
             schema_block: None,
+            input_defaults: vec![],
         };
         s.render_json(&JsonVariant::plain())
     };
